@@ -403,3 +403,177 @@ Proof.
   destruct (end_block_records cfg s dt r Hcfg Hi Hb) as (_ & K). cbv zeta in K.
   apply K; [now rewrite <- He|lia].
 Qed.
+
+(* ------------------------------------------------------------------ *)
+(* messages *)
+
+(* what a message does to the request records: nothing, except that an accepted response
+   to r deactivates r *)
+Lemma msg_reqs cfg s o s' :
+  handle cfg s o = Ok s' -> (forall dt, o <> OEndBlock dt) ->
+  reqs s' = reqs s
+  \/ exists r who code out ov q,
+       o = ORespond r who code out ov true /\ get r (reqs s) = Some q /\ r_active q = true
+       /\ who = r_prov q /\ reqs s' = set r (setr_active q false) (reqs s).
+Proof.
+  intros H Hne.
+  destruct o;
+    try (left; exact (proj1 (escrow_msg_simple _ _ _ _ H I)));
+    try (left; exact (proj1 (req_msg_simple _ _ _ _ H I))).
+  - right. cbn [handle] in H. apply respond_reqs in H.
+    destruct H as (q & rc0 & -> & Hq & _ & Hwho & Hact & Er & _).
+    exists r, who, code, out, out_valid, q. auto.
+  - exfalso. eapply Hne. reflexivity.
+Qed.
+
+(* no message removes or alters a request record; a pending request stays pending unless
+   the message is an accepted response to it *)
+Theorem C08_msg_keeps_requests cfg s o s' r q :
+  handle cfg s o = Ok s' -> (forall dt, o <> OEndBlock dt) -> get r (reqs s) = Some q ->
+  exists q', get r (reqs s') = Some q'
+    /\ r_prov q' = r_prov q /\ r_fee q' = r_fee q /\ r_exp q' = r_exp q
+    /\ (r_active q' = true -> r_active q = true)
+    /\ (r_active q = true -> r_active q' = false ->
+          exists code out ov, o = ORespond r (r_prov q) code out ov true).
+Proof.
+  intros H Hne Hq. destruct (msg_reqs cfg s o s' H Hne) as [E|(r0 & who & code & out & ov & q0 & -> & Hq0 & Ha0 & -> & E)].
+  - exists q. rewrite E. repeat split; auto. intros Ha Hf. congruence.
+  - rewrite E, get_set. destruct (eqb_spec r r0) as [->|Hn].
+    + assert (q0 = q) by congruence. subst q0. exists (setr_active q false).
+      repeat split; auto. intros _ _. eauto.
+    + exists q. repeat split; auto. intros Ha Hf. congruence.
+Qed.
+
+(* no message creates a request record *)
+Theorem C08_msg_no_new_requests cfg s o s' r :
+  handle cfg s o = Ok s' -> (forall dt, o <> OEndBlock dt) ->
+  get r (reqs s) = None -> get r (reqs s') = None.
+Proof.
+  intros H Hne Hq. destruct (msg_reqs cfg s o s' H Hne) as [E|(r0 & who & code & out & ov & q0 & _ & Hq0 & _ & _ & E)].
+  - now rewrite E.
+  - rewrite E, get_set_neq; [exact Hq|]. intros ->. congruence.
+Qed.
+
+(* the whole window, one step at a time: in every state up to and including the block of the
+   expiry height a pending request accepts its provider's response (C08_accept needs only the
+   invariant); once that block has ended every response is rejected *)
+Corollary C08_rejected_after_expiry cfg s dt r q who code out ov ok :
+  wf_cfg cfg -> Inv cfg s -> height s < HEIGHT_BOUND ->
+  get r (reqs s) = Some q -> r_exp q = height s ->
+  handle cfg (end_block cfg s dt) (ORespond r who code out ov ok) = Err.
+Proof.
+  intros Hcfg Hi Hb Hq He.
+  destruct (C08_end_block_expires cfg s dt r q Hcfg Hi Hb Hq He) as (G & _).
+  apply C08_reject. auto.
+Qed.
+
+(* ------------------------------------------------------------------ *)
+(* Examples (by computation) on a reachable history: the providers of StepSpecs_batch.ExB,
+   one call with timeout 5 issued at height 1: requests r0 (provider 7, fee 10) and r1
+   (provider 11, fee 30), expiry height 6.  [Reach cfg s] stands for [Inv cfg s]. *)
+Module ExW.
+  Import ExB.
+  Definition cw : CtxId := (2001, 0).
+  Definition r0 : ReqId := (cw, 1, 1, 0).
+  Definition r1 : ReqId := (cw, 1, 1, 1).
+  Definition ops_1 : list Op := ops_common ++
+    [ OCall cw 1 [7; 11] 50 0 (CBase 50) 5 false false 0 0 true true; OEndBlock 1 ].
+  Definition ops_2 : list Op := ops_1 ++ [ ORespond r0 7 200 1 true true ].
+  Definition ops_3 : list Op := ops_2 ++ [ OEndBlock 1; OEndBlock 1; OEndBlock 1; OEndBlock 1 ].
+  Definition ops_4 : list Op := ops_3 ++ [ OEndBlock 1 ].
+  Definition s_1 : State := run cfg s0 ops_1.   (* height 2: both pending *)
+  Definition s_2 : State := run cfg s0 ops_2.   (* height 2: r0 answered *)
+  Definition s_3 : State := run cfg s0 ops_3.   (* height 6: the expiry block *)
+  Definition s_4 : State := run cfg s0 ops_4.   (* height 7: expired *)
+
+  Ltac reach_tac ops :=
+    apply reach_init_run; [lia|lia|unfold funding; wf_funding_tac|];
+    unfold ops, ops_3, ops_2, ops_1, ops_common; cbn [app]; wf_run_tac.
+  Example reach_1 : Reach cfg s_1. Proof. reach_tac ops_1. Qed.
+  Example reach_2 : Reach cfg s_2. Proof. reach_tac ops_2. Qed.
+  Example reach_3 : Reach cfg s_3. Proof. reach_tac ops_3. Qed.
+  Example reach_4 : Reach cfg s_4. Proof. reach_tac ops_4. Qed.
+
+  Example records_1 :
+    height s_1 = 2
+    /\ reqs s_1 = [(r0, mkReq 7 10 6 true); (r1, mkReq 11 30 6 true)] /\ expq s_1 = [(6, cw)].
+  Proof. vm_compute. auto. Qed.
+
+  (* C08_accept: hypotheses, and the outcome for a normal and for a malformed output *)
+  Example C08_accept_ex :
+    wf_cfg cfg /\ Reach cfg s_1 /\ get r1 (reqs s_1) = Some (mkReq 11 30 6 true)
+    /\ is_ok (handle cfg s_1 (ORespond r1 11 200 1 true true)) = true
+    /\ is_ok (handle cfg s_1 (ORespond r1 11 200 1 false true)) = true.
+  Proof. split; [exact wf_cfg_ex|]. split; [exact reach_1|]. vm_compute. auto. Qed.
+
+  (* ... still accepted in the block of the expiry height *)
+  Example C08_accept_ex_last_block :
+    Reach cfg s_3 /\ height s_3 = 6 /\ get r1 (reqs s_3) = Some (mkReq 11 30 6 true)
+    /\ is_ok (handle cfg s_3 (ORespond r1 11 200 1 true true)) = true.
+  Proof. split; [exact reach_3|]. vm_compute. auto. Qed.
+
+  Example C08_accept_applies : exists s', handle cfg s_3 (ORespond r1 11 200 1 true true) = Ok s'.
+  Proof.
+    destruct C08_accept_ex_last_block as (Hr & _ & Hq & _).
+    exact (C08_accept cfg s_3 r1 _ 200 1 true wf_cfg_ex (Reach_Inv _ _ wf_cfg_ex Hr) Hq eq_refl).
+  Qed.
+
+  (* C08_reject: stranger, unknown id, inactive (answered) request, invalid message *)
+  Example C08_reject_ex :
+    get r1 (reqs s_1) = Some (mkReq 11 30 6 true) /\ 7 <> 11
+    /\ handle cfg s_1 (ORespond r1 7 200 1 true true) = Err
+    /\ get (cw, 1, 1, 2) (reqs s_1) = None
+    /\ handle cfg s_1 (ORespond (cw, 1, 1, 2) 11 200 1 true true) = Err
+    /\ handle cfg s_1 (ORespond r1 11 200 1 true false) = Err
+    /\ get r0 (reqs s_2) = Some (mkReq 7 10 6 false)
+    /\ handle cfg s_2 (ORespond r0 7 200 1 true true) = Err.
+  Proof. vm_compute. repeat split; try reflexivity; discriminate. Qed.
+
+  (* C08_once: the hypothesis (an accepted response) and the record afterwards *)
+  Example C08_once_ex :
+    handle cfg s_1 (ORespond r0 7 200 1 true true) = Ok s_2
+    /\ get r0 (reqs s_2) = Some (mkReq 7 10 6 false)
+    /\ get r0 (resps s_2) = Some (mkResp 7 50 200 1).
+  Proof. vm_compute. auto. Qed.
+
+  (* C08_window_inv / C08_end_block_keeps / C08_end_block_expires *)
+  Example C08_end_block_keeps_ex :
+    wf_cfg cfg /\ Reach cfg s_2 /\ height s_2 < HEIGHT_BOUND
+    /\ get r1 (reqs s_2) = Some (mkReq 11 30 6 true) /\ height s_2 < 6
+    /\ get r1 (reqs (end_block cfg s_2 1)) = Some (mkReq 11 30 6 true)
+    /\ get r0 (reqs (end_block cfg s_2 1)) = Some (mkReq 7 10 6 false)
+    /\ get r0 (resps (end_block cfg s_2 1)) = get r0 (resps s_2).
+  Proof. split; [exact wf_cfg_ex|]. split; [exact reach_2|]. vm_compute. auto 10. Qed.
+
+  Example C08_end_block_expires_ex :
+    wf_cfg cfg /\ Reach cfg s_3 /\ height s_3 < HEIGHT_BOUND
+    /\ get r1 (reqs s_3) = Some (mkReq 11 30 6 true) /\ height s_3 = 6
+    /\ reqs (end_block cfg s_3 1) = [] /\ resps (end_block cfg s_3 1) = []
+    /\ end_block cfg s_3 1 = s_4
+    /\ handle cfg s_4 (ORespond r1 11 200 1 true true) = Err
+    (* the unanswered request was refunded and its provider slashed *)
+    /\ bal s_4 (User 50) = bal s_3 (User 50) + 30 /\ bal s_4 Deposit = bal s_3 Deposit - 100.
+  Proof. split; [exact wf_cfg_ex|]. split; [exact reach_3|]. vm_compute. auto 12. Qed.
+
+  (* C08_gone_after_expiry: the hypotheses of the per-context expiry handler *)
+  Example C08_gone_after_expiry_ex :
+    wf_cfg cfg /\ Reach cfg s_3 /\ In (height s_3, cw) (expq s_3) /\ height s_3 < HEIGHT_BOUND
+    /\ rid_ctx r0 = cw /\ rid_ctx r1 = cw
+    /\ reqs (expire_one cfg s_3 cw) = [] /\ resps (expire_one cfg s_3 cw) = [].
+  Proof.
+    split; [exact wf_cfg_ex|]. split; [exact reach_3|]. split; [vm_compute; tauto|].
+    vm_compute. auto 10.
+  Qed.
+
+  (* C08_msg_keeps_requests: a message of another kind, even one disabling the provider,
+     leaves the pending request alone *)
+  Example C08_msg_keeps_requests_ex :
+    let o := ODisable 1 11 43 true in
+    (forall dt, o <> OEndBlock dt)
+    /\ exists s', handle cfg s_1 o = Ok s' /\ get r1 (reqs s_1) = Some (mkReq 11 30 6 true)
+         /\ reqs s' = reqs s_1
+         /\ is_ok (handle cfg s' (ORespond r1 11 200 1 true true)) = true.
+  Proof.
+    split; [intros; discriminate|]. eexists. split; [vm_compute; reflexivity|]. vm_compute. auto.
+  Qed.
+End ExW.
